@@ -216,6 +216,8 @@ fn show_gossip(m: &GossipMessage) -> String {
 /// every delta through every message variant, payload bytes compared; every truncation of the
 /// JSON frame must be rejected; byte flips are measured (JSON frames carry no checksum, so a
 /// flipped digit legitimately decodes to other data: the property claims the round trip only)
+static JSON_FRAMES: std::sync::atomic::AtomicU64 = std::sync::atomic::AtomicU64::new(0);
+
 fn gossip_roundtrips(ds: &[ReplicationDelta], rng: &mut Rng, out: &mut Out) {
     let src = ReplicaId::new(rng.range(1, 3));
     let msgs = vec![
@@ -245,6 +247,13 @@ fn gossip_roundtrips(ds: &[ReplicationDelta], rng: &mut Rng, out: &mut Out) {
         let ok = got.as_deref() == Some(want.as_str());
         // the law `de (ser m) = some m` of the model's gossip codec instance, checked on every run
         out.op(format!("g {} {}", var, bytes.len()), if ok { "roundtrip ok".into() } else { "roundtrip DIFFERENT".into() });
+        // the REAL serde_json bytes decoded by the model's canonical JSON decoder (Model/Json.lean): the text
+        // of every field must be the real decoder's — so, by the model's `exact` law, the real bytes ARE the
+        // model's encoding of the real message
+        out.op(format!("JG {}", hex(&bytes)), match &got { Some(g) => format!("ok {}", g), None => "err".into() });
+        out.count("json:frame:pristine");
+        // the damaged variants of every 4th frame go through the model too (volume)
+        let json_damage = JSON_FRAMES.fetch_add(1, std::sync::atomic::Ordering::Relaxed) % 4 == 0;
         if !ok {
             // name the first delta that differs, with its payload bytes
             let orig: Vec<String> = m.clone().into_deltas().unwrap_or_default().iter().map(show_delta).collect();
@@ -267,6 +276,12 @@ fn gossip_roundtrips(ds: &[ReplicationDelta], rng: &mut Rng, out: &mut Out) {
                 continue;
             }
             out.count("damage:gossip:truncate");
+            if json_damage && (l < 6 || l + 6 >= n || l % (n / 12).max(1) == 0) {
+                // ... and by the model: no proper prefix of a frame is a frame (gossip_json_truncated_rejected)
+                let r = catch_unwind(AssertUnwindSafe(|| GossipMessage::deserialize(&bytes[..l])));
+                out.op(format!("JG {}", hex(&bytes[..l])), match r { Ok(Ok(m2)) => format!("ok {}", show_gossip(&m2)), Ok(Err(_)) => "err".into(), Err(_) => "crash".into() });
+                out.count("json:frame:truncated");
+            }
             match catch_unwind(AssertUnwindSafe(|| GossipMessage::deserialize(&bytes[..l]))) {
                 Err(_) => out.violation("C14:gossip:panic:truncate", "deserialising a truncated gossip frame panicked", json!({"variant": var, "len": l})),
                 Ok(Err(_)) => {}
@@ -278,6 +293,14 @@ fn gossip_roundtrips(ds: &[ReplicationDelta], rng: &mut Rng, out: &mut Out) {
             let p = rng.below(n as u64) as usize;
             let mut b = bytes.clone();
             b[p] ^= 1 << rng.below(8);
+            if json_damage {
+                // a damaged frame: where the document is still canonical (a changed digit, letter, payload byte)
+                // the model's decoding must be the real one; elsewhere the model makes no claim (op JX)
+                let r = catch_unwind(AssertUnwindSafe(|| GossipMessage::deserialize(&b)));
+                let imp = match r { Ok(Ok(m2)) => format!("ok {}", show_gossip(&m2)), Ok(Err(_)) => "err".into(), Err(_) => "crash".into() };
+                out.op(format!("JX {} {}", hex(&b), imp), "checked".into());
+                out.count("json:frame:bit-flip");
+            }
             match catch_unwind(AssertUnwindSafe(|| GossipMessage::deserialize(&b))) {
                 Err(_) => out.violation("C14:gossip:panic:flip", "deserialising a damaged gossip frame panicked", json!({"variant": var, "pos": p})),
                 Ok(Err(_)) => out.count("gossip-flip:rejected"),
